@@ -51,6 +51,12 @@ def generate(rng, n, tier):
             else:
                 tail.append(dict(op="Solve", cb=False))
                 tail.insert(0, dict(op="SetLimits", g=rng.choice([3, 5]), e=None, new=True))
+        if rng.random() < 0.2 and not any(o["op"] == "SetEvalMonitor" for o in ops):
+            # an evaluation monitor attached only after some evaluations: it holds fewer records than the counter counts
+            firsts = [i for i, o in enumerate(ops) if o["op"] == "Step"]
+            if firsts:
+                ops.insert(firsts[0] + 1, dict(op="SetEvalMonitor", new=False))
+                ops.insert(firsts[0] + 2, dict(op="Step", cb=False))
         c["pre"], c["post"] = ops, tail
         del c["ops"]
         c["action"] = rng.choice(["deepcopy", "saveload", "dill", "savefreq"])
@@ -139,6 +145,7 @@ def _run(case):
                 s1 = dill.loads(dill.dumps(s0))
             elif a == "saveload":
                 s0.SaveSolver(fname)
+                saved_changed = [q for q in FIELDS if L.snapshot(s0, rec0, None)[q] != at[q]]      # writing a checkpoint is not an operation on the solver
                 s1 = LoadSolver(fname)
             else:
                 # the periodic dump is the state at the end of the last EXECUTED iteration: comparable with the original
@@ -183,6 +190,7 @@ def _run(case):
                 L.REG.pop(tag2, None)
             final0 = L.snapshot(s0, rec0, None)
             out = dict(pre_trace=pre_trace, pre_res=pre_res, at=at, t0=t0, r0=r0, action=a, restored=s1 is not None, saved_gens=saved_gens,
+                       saved_changed=(saved_changed if a == "saveload" else []),
                        p0=L.pack(rec0, pre_trace + t0, pre_res + r0))
             if s1 is None:
                 return out
@@ -268,6 +276,9 @@ def oracle(case, out):
             f.append(SC.fail("copy_independent", site, "original-changed-by-snapshot:periodic-dump"))
         return f
     a = out["action"]
+    if out.get("saved_changed"):
+        f.append(SC.fail("copy_independent", site, "original-changed-by-saving", dict(fields=out["saved_changed"])))
+        return f
     # the snapshot is the original at the boundary (a periodic dump is taken inside the last iteration)
     va, v1 = view(out["at"]), view(out["snap1_at"])
     # _live decides whether the next Step re-decorates the objective (re-clipping / rebuilding the population under strict ranges):
